@@ -130,11 +130,29 @@ class LockSim:
         self.grants_total = 0
         self.nontrivial = False
         self.steps = 0
+        self.drain_lag = 0
+        self.lock_events = 0
         self.reset()
 
     def reset(self):
         self.rx.reset(keep_servers=True)
         self.ctx.db_lock = False
+        # lock-bit transitions are recorded at the instant they happen (a grant that is
+        # given and lost again within one reactor turn must still count as a grant)
+        ctx, sim = self.ctx, self
+        if not hasattr(ctx, '_vf_lock_db'):
+            ctx._vf_lock_db, ctx._vf_unlock_db = ctx.lock_db, ctx.unlock_db  # pylint: disable=protected-access
+
+        def lock_db():
+            ctx._vf_lock_db()  # pylint: disable=protected-access
+            sim.free_since = None
+            sim.lock_events += 1
+
+        def unlock_db():
+            ctx._vf_unlock_db()  # pylint: disable=protected-access
+            sim.free_since = sim.rx.seconds()
+
+        ctx.lock_db, ctx.unlock_db = lock_db, unlock_db
 
     # -- ops ---------------------------------------------------------------
     def apply(self, op):
@@ -178,9 +196,14 @@ class LockSim:
                     self.bad.append(('release-by-stranger', f'client {c.cid} holds nothing, its release changed the lock bit'))
                 if held:
                     c.released = True
-                # the server closes after a release: the reactor then reports the loss
+                # the server closes after a release; the reactor reports the loss once the
+                # reply has been flushed, i.e. some time later: timers may fire in between
                 if c.tr.disconnecting:
-                    c.lose()
+                    lag = op[2] if len(op) > 2 else 0
+                    if lag:
+                        self.rx.callLater(lag, c.lose)
+                    else:
+                        c.lose()
         elif kind == 'drop':
             c = self.clients.get(op[1])
             if c and not c.lost:
@@ -234,6 +257,7 @@ class LockSim:
             self.free_since = None
         elif self.free_since is None:
             self.free_since = now
+        # a waiter whose poll happened while the lock was (even briefly) taken starts over
         if self.free_since is not None:
             lim = PERIOD + 2 * STEP
             for c in self.clients.values():
@@ -255,7 +279,7 @@ class LockSim:
         while t <= bound and not self.bad:
             for c in list(self.clients.values()):
                 if c.grants and not c.released and not c.lost and not c.release_sent:
-                    self.apply(('rel', c.cid))
+                    self.apply(('rel', c.cid, self.drain_lag))
             left = [c for c in waiters if not c.grants and not c.lost]
             if not left:
                 return True
@@ -289,10 +313,10 @@ def gen_script(rng, nmax=None):
         elif k < 0.75:
             ops.append(('tick', rng.choice([0.25, 0.5, 1.0, 1.0, 2.0, 3.0, 3.25])))
         elif k < 0.95 and started:
-            ops.append(('rel', rng.choice(started)))
+            ops.append(('rel', rng.choice(started), rng.choice([0, 0, 0.25, 1.0, 3.5])))
         elif started:
             ops.append(('drop', rng.choice(started)))
-    return {'n': n, 'ops': ops}
+    return {'n': n, 'ops': ops, 'drain_lag': rng.choice([0, 0.25, 1.0])}
 
 
 def run_script(world, script, res, fault=None):
@@ -305,6 +329,7 @@ def run_script(world, script, res, fault=None):
         if sim.bad:
             break
     if not sim.bad:
+        sim.drain_lag = script.get('drain_lag', 0)
         sim.drain()
     for c in sim.clients.values():
         c.lose()
@@ -329,6 +354,7 @@ def run_real_client(world, rng, res):
         sim.apply(('acq', 0, 0))
         delay = rng.choice([0.5, 2.0, 4.0, 7.0])
         world.reactor.callLater(delay, lambda: sim.apply(('rel', 0)) if rng.random() < 0.7 else sim.apply(('drop', 0)))
+    net.deadline = world.reactor.seconds() + 60.0
     try:
         s = comms.acquire('real')
         res.count('real_client_acquires')
@@ -344,6 +370,7 @@ def run_real_client(world, rng, res):
             bad.append(('release-frees', f'comms.release returned {r}, lock bit={ctx.db_lock}'))
     except netsim.WouldBlock as e:
         bad.append(('granted-within-a-period', f'comms.acquire still blocked after the holder was gone: {e}'))
+    net.deadline = None
     for c in sim.clients.values():
         c.lose()
     return bad + sim.bad
